@@ -110,10 +110,9 @@ let () =
         | [_; me], fl :: slots_rev ->
           let slots = List.map (fun w -> List.map num (words w)) (List.rev slots_rev) in
           let me = nat_of_int (int_of_string me) in
-          let cons = cmp_consistent (collect slots me) in
           (match scan slots me (List.map num (words fl)) with
-           | Some (k, f) -> Printf.printf "HS %d | %s | %s\n" (if cons then 1 else 0) (pr_list k) (pr_list f)
-           | None -> Printf.printf "HS %d LOOP\n" (if cons then 1 else 0))
+           | Some (k, f) -> Printf.printf "HS | %s | %s\n" (pr_list k) (pr_list f)
+           | None -> print_endline "HS LOOP")
         | _ -> print_endline "ERR")
      | _ -> print_endline "ERR");
     flush stdout
